@@ -727,6 +727,9 @@ impl<S: Sample> RenderedImage<S> {
         let oriented_image_region = oriented_image_region
             .unwrap_or_else(|| util::apply_orientation_to_image_region(image_header, image_region));
 
+        #[cfg(jxl_oxide_verif)]
+        let mut verif_scope =
+            crate::verif::BlendScope::new(&self.image.verif_exec, self.image.frame.idx);
         let mut grid_lock = self.image.wait_until_render()?;
         if let FrameRender::Blended(image) = &*grid_lock {
             return Ok(Arc::clone(image));
@@ -737,7 +740,11 @@ impl<S: Sample> RenderedImage<S> {
             panic!();
         };
 
+        #[cfg(jxl_oxide_verif)]
+        verif_scope.preprocess_enter();
         let skip_composition = composite_preprocess(&self.image.frame, &mut grid, pool)?;
+        #[cfg(jxl_oxide_verif)]
+        verif_scope.preprocess_exit(skip_composition);
         if skip_composition {
             let image = Arc::new(grid);
             *grid_lock = FrameRender::Blended(Arc::clone(&image));
@@ -747,6 +754,8 @@ impl<S: Sample> RenderedImage<S> {
         *grid_lock = FrameRender::Rendering;
         drop(grid_lock);
 
+        #[cfg(jxl_oxide_verif)]
+        verif_scope.composite_enter();
         composite(
             &self.image.frame,
             &mut grid,
@@ -754,6 +763,8 @@ impl<S: Sample> RenderedImage<S> {
             oriented_image_region,
             pool,
         )?;
+        #[cfg(jxl_oxide_verif)]
+        verif_scope.composite_exit_ok();
 
         let image = Arc::new(grid);
         drop(
@@ -764,6 +775,8 @@ impl<S: Sample> RenderedImage<S> {
     }
 
     pub(crate) fn try_take_blended(&self) -> Option<ImageWithRegion> {
+        #[cfg(jxl_oxide_verif)]
+        crate::verif::verif_sched("try_take_blended:lock", self.image.frame.idx);
         let mut grid_lock = self.image.render.lock().unwrap();
         match std::mem::take(&mut *grid_lock) {
             FrameRender::Blended(image) => {
